@@ -1,7 +1,7 @@
 """C03 - outbound bytes are whole, byte-accurate, uninterleaved frames.
 
-Drives the real JsonRPCProtocol / LanguageServerProtocol (`_send_response`, `notify`, `send_request`,
-`_send_data`) with recording / gating writers and the real StdoutWriter / WebSocketWriter classes of
+Drives the real JsonRPCProtocol / LanguageServerProtocol (`notify`, `send_request`, and the private
+response / raw-data senders located by harness/priv.py) with recording / gating writers and the real StdoutWriter / WebSocketWriter classes of
 pygls.io_; the model is Model/Wire.v + Base/Json.v, the reference Spec/WireSpec.v, both through
 bin/c03_driver.  impl = M compares the exact sequence of transport operations (number of write
 calls per message, their bytes, the flushes); impl |= S is judged by an independent strict decoder
@@ -9,6 +9,7 @@ and JSON reader written in Python below (themselves cross-checked against the Co
 loads on mutated streams on every run)."""
 import asyncio, enum, json, logging, os, resource, threading, time
 import core
+import priv
 
 
 def _raise_stack_limit():
@@ -541,22 +542,26 @@ class LoopStdin:
         pass
 
 
-def make_protocol(flavour):
+def make_server(flavour):
     if flavour == "lsp":
         from pygls.lsp.server import LanguageServer
-        return LanguageServer("c03", "v1").protocol
+        return LanguageServer("c03", "v1")
     from pygls.server import JsonRPCServer
     from pygls.protocol import JsonRPCProtocol, default_converter
-    return JsonRPCServer(JsonRPCProtocol, default_converter).protocol
+    return JsonRPCServer(JsonRPCProtocol, default_converter)
+
+
+def make_protocol(flavour):
+    return make_server(flavour).protocol
 
 
 def perform(p, s):
     from lsprotocol import types
     k = s["t"]
     if k == "resp":
-        p._send_response(to_py(s["id"]), to_py(s["result"]))
+        priv.send_response(p)(to_py(s["id"]), to_py(s["result"]))
     elif k == "err":
-        p._send_response(to_py(s["id"]), None,
+        priv.send_response(p)(to_py(s["id"]), None,
                          types.ResponseError(code=s["code"], message="".join(map(chr, s["message"])),
                                              data=to_py(s["data"])))
     elif k == "notif":
@@ -565,7 +570,7 @@ def perform(p, s):
         cb = (lambda result: None) if s.get("cb") else None
         p.send_request("".join(map(chr, s["method"])), to_py(s["params"]), callback=cb, msg_id=to_py(s["id"]))
     else:
-        p._send_data(to_py(s["data"]))
+        priv.send_data(p)(to_py(s["data"]))
 
 
 # ------------------------------------------------------------------ the property
@@ -582,7 +587,7 @@ class C03(core.Property):
                    "C03_schedules_covered", "C03_refuted_nonatomic_write", "C03_pairfree_necessary", "C03_scalar_strings_ok", "C03_nonvacuous"]
     coq_targets = ["Props/C03.vo", "Extract/ExtractC03.vo"]
     rule = ("a case is a configuration (protocol flavour, writer kind, include_headers) and a list of sending calls "
-            "(_send_response result / error, notify, send_request, raw _send_data) or several senders plus a schedule "
+            "(response result / error, notify, send_request, raw data) or several senders plus a schedule "
             "of their transport operations; non-trivial = some string of the case has a character >= 0x80 or one that "
             "json escapes, or there are >= 2 concurrent senders")
     trusted_base = ["Coq 8.16.1 kernel incl. vm_compute (Examples, witnesses)",
@@ -590,7 +595,9 @@ class C03(core.Property):
                     "harness/c03.py (generators, recording/gating writers, independent decoder and JSON reader)",
                     "modelled not verified: json.dumps (default separators, ensure_ascii), str.encode, f-string of int, "
                     "cattrs unstructure of the four generic message classes (layout reproduced, tied on every run)",
-                    "assumed: one transport write call is atomic (BufferedWriter holds its lock for the whole call)"]
+                    "assumed: one transport write call is atomic (BufferedWriter holds its lock for the whole call)",
+                    priv.trusted(["protocol.send_response", "protocol.send_data", "server.error_handler"])]
+    private = ["protocol.send_response", "protocol.send_data", "server.error_handler"]
     assumptions = ["payloads are JSON trees with str keys and int/str/bool/None leaves (floats excluded)",
                    "a Python str is a list of code points 0..0x10FFFF; strings with a high surrogate immediately "
                    "followed by a low surrogate are outside (JSON cannot carry them)",
@@ -1013,8 +1020,8 @@ class C03(core.Property):
         Observed per handler-context send: the transport operations made during the call and how many
         of the sender's bytes are NOT flushed at the moment the call returns."""
         from pygls import io_
-        p = make_protocol(c["fl"])
-        server = p._server
+        server = make_server(c["fl"])
+        p = server.protocol
         raw = LoopRaw()
         loop_tid = threading.get_ident()
         msgs = c["msgs"]
@@ -1102,13 +1109,14 @@ class C03(core.Property):
                 nrep = sum(1 for e in raw.log if e[1] is None and e[2] == "w")
             return nrep >= nreq
         stdin = LoopStdin(data, raw, loop_tid, finished)
+        handler = priv.error_handler(server)       # what the real call sites pass (located outside the observed calls)
         try:
             if c["loop"] == "async":
                 server.start_io(stdin, raw)
             else:
                 p.set_writer(io_.StdoutWriter(raw))
                 try:
-                    io_.run(threading.Event(), stdin, p, None, server._report_server_error)
+                    io_.run(threading.Event(), stdin, p, None, handler)
                 finally:
                     server.shutdown()
         except SystemExit:
@@ -1686,6 +1694,7 @@ class C03(core.Property):
         rt = threading.Thread(target=reader, daemon=True)
         rt.start()
         errs = []
+        send_response = priv.send_response(p)
         pads = ["x", "\u00e9", "\u20ac", "\U0001F60B", "\"\\\n", "\x7f\x00", "\ud800", "mixed \u00e9\U0001F60B\"\n"]
         def pad(i, k):
             unit = pads[(i + k) % len(pads)]
@@ -1699,7 +1708,7 @@ class C03(core.Property):
                     if kind == 0:
                         p.notify("stress/n", payload)
                     elif kind == 1:
-                        p._send_response(1000 * i + k, payload)
+                        send_response(1000 * i + k, payload)
                     else:
                         p.send_request("stress/r", payload, msg_id=f"q{i}-{k}")
             except BaseException as ex:   # noqa
@@ -1895,3 +1904,10 @@ class C03(core.Property):
 
 
 PROPERTY = C03
+
+# Link theorem Wire.v <-> Endpoint.v (coq/Proofs/LinkWireEndpoint.v): the byte stream of every endpoint
+# schedule is a concatenation of whole frames decoding to `out` (blocking / awaitable / failing writer).
+C03.obligations = list(C03.obligations) + ["Proofs.LinkWireEndpoint::" + n for n in (
+    "link_stream_is_wire_model", "stream_of_decodes", "link_blocking", "link_awaitable_only_write_step",
+    "link_awaitable_write_step", "link_awaitable", "link_failing_writer")] + ["C03_along_endpoint_schedules"]
+C03.coq_targets = list(C03.coq_targets) + ["Proofs/LinkWireEndpoint.vo"]
